@@ -34,7 +34,7 @@ def smpireplaymain():
     return sgdir() + '/lib/simgrid/smpireplaymain'
 
 
-MPICOLL = dst.BIN + '/mpicoll'
+MPICOLL = os.environ.get('VERIF_MPICOLL', dst.BIN + '/mpicoll')
 
 
 def mix3(a, b, c):
@@ -102,7 +102,10 @@ def list_algorithms(sg=None):
     if not os.path.exists(exe):
         raise dst.Infra('smpimain missing: ' + exe)
     for attempt in range(60):
-        rc, out, err, to = dst.run_proc([exe, '--help-coll'], timeout=30)
+        try:
+            rc, out, err, to = dst.run_proc([exe, '--help-coll'], timeout=30)
+        except OSError:
+            rc, out, err, to = 127, b'', b'error while loading shared libraries (exec failed)', False
         if rc == 127 and b'error while loading shared libraries' in err:
             time.sleep(3)
             continue
@@ -232,7 +235,10 @@ def run_smpi(scratch, np, plat, hosts, cfg, plan_text, timeout=60, extra_env=Non
     if extra_env:
         env.update(extra_env)
     for attempt in range(60):
-        rc, out, err, to = dst.run_proc(cmd, timeout=timeout, env=env, cwd=scratch)
+        try:
+            rc, out, err, to = dst.run_proc(cmd, timeout=timeout, env=env, cwd=scratch)
+        except OSError:         # binary being replaced by a concurrent bin/vbuild (ETXTBSY, EACCES, ENOENT)
+            rc, out, err, to = 127, b'', b'error while loading shared libraries (exec failed)', False
         if (rc == 127 and b'error while loading shared libraries' in err) or b'file too short' in err:
             time.sleep(3)       # bin/vbuild is relinking the library right now (it holds build/.lock): wait, retry
             continue
@@ -247,11 +253,13 @@ def cleanup(scratch):
 
 
 # a fatal MPI error code raised by the collective entry point itself (not by an internal recv/send of an algorithm)
-_MPI_ERR = re.compile(r'(MPI_\w+) - returned (MPI_ERR_\w+) instead of MPI_SUCCESS')
+_MPI_ERR = re.compile(r'(MPI_I?(?:[Bb]cast|[Rr]educe\w*|[Aa]llreduce|[Aa]llgatherv?|[Aa]lltoall[vw]?|[Gg]atherv?|[Ss]catterv?|'
+                      r'[Bb]arrier|[Ee]?[Xx]?[Ss]can)) - returned (MPI_ERR_\w+) instead of MPI_SUCCESS')
 REFUSAL_PATTERNS = [
     r"can't be used", r'can not be used', r'cannot be used', r'invalid_argument', r'power of two', r'power of 2',
     r'not implemented', r'[Uu]nimplemented', r'not supported', r'requires? ', r'only works? ',
     r'Assertion pof2 == comm_size failed',   # reduce_scatter mpich_rdb/noncomm: 'FIXME this version only works for power of 2 procs'
+    r'Assertion recvcounts\[i\] == recvcounts\[i\+1\] failed',   # reduce_scatter mpich_noncomm needs equal counts
 ]
 _REFUSAL = re.compile('|'.join(REFUSAL_PATTERNS))
 
@@ -321,6 +329,8 @@ def rma_plan_text(plan):
            'winalloc %d' % plan.get('winalloc', 0)]
     for p, ph in enumerate(plan['phases']):
         out.append('phase %d %s' % (p, ph['kind']))
+        if ph['kind'] == 'fence':
+            out.append('fassert %d' % ph.get('fassert', 0))
         if ph.get('init'):
             out.append('init %d %d' % (p, ph['init']))
         if ph['kind'] == 'pscw':
@@ -364,3 +374,24 @@ def rma_origin_values(op, rank):
 
 def rma_init_values(seed, rank, W):
     return [value_of(VC_SUM, seed, rank, i, 1 << 20) + 10 for i in range(W)]
+
+
+# ---------------------------------------------------------------------------------------------------------
+def install_proposed_findings():
+    """Development aid: when VERIF_KNOWN_EXTRA names JSON files (':' separated) with the known_findings.json layout, their
+    entries are added to what dst.load_known() returns.  Lets a check be exercised against findings that are proposed
+    (known_findings.<ID>.proposed.json) but not merged yet into the shared file.  No effect when the variable is unset."""
+    extra = os.environ.get('VERIF_KNOWN_EXTRA')
+    if not extra or getattr(dst, '_mpicoll_extra_installed', False):
+        return
+    import json
+    orig = dst.load_known
+
+    def load_known(pid):
+        out = list(orig(pid))
+        for path in extra.split(':'):
+            if os.path.exists(path):
+                out += [k for k in json.load(open(path)).get('findings', []) if k.get('property') == pid]
+        return out
+    dst.load_known = load_known
+    dst._mpicoll_extra_installed = True
